@@ -198,7 +198,7 @@ impl Prop for C15 {
         vec!["RefDbg.eval (Appendix C / A); programs get no input".into()]
     }
     fn run_worker(&self, ctx: &Ctx, rep: &mut Report) {
-        let n = ctx.share(ctx.tier.pick(12_000, 150_000));
+        let n = ctx.share(ctx.tier.pick(30_000, 300_000));
         drive(ctx, rep, "evals", cases(), n, &mut |c: &Case| judge_case(c));
     }
     fn replay(&self, _ctx: &Ctx, case: &Value) -> Obs {
